@@ -229,7 +229,12 @@ def builder_flow(F):
         for ev, st in normal_paths(paths(fn["body"], classify)):
             if "HANDOVER" not in ev:
                 continue
-            ok = ev.count("END") == 1 and ev.index("END") < ev.index("BODYCOPY") < ev.index("HANDOVER") if "BODYCOPY" in ev else False
+            # the body is captured either by a clone (which must come after end()) or by moving it out of `self` at the
+            # hand-over itself (nothing can follow a move of `self`, so end() before the hand-over is all there is to check)
+            if "BODYCOPY" in ev:
+                ok = ev.count("END") == 1 and ev.index("END") < ev.index("BODYCOPY") < ev.index("HANDOVER")
+            else:
+                ok = ev.count("END") == 1 and ev.index("END") < ev.index("HANDOVER")
             r.ob(ok, {"fn": nm, "path": list(ev)})
             if not ok:
                 r.violate("%s | end/handover" % fn["path"], F.loc(fn), "%s: events %s (expected exactly one end() before the body is cloned and handed over)" % (nm, list(ev)))
@@ -249,9 +254,22 @@ def builder_flow(F):
                 r.undecided("%s: %d add_local_func_with_tag calls: hand-over arguments not analysed" % (nm, len(c)))
                 sibs[nm] = None
                 continue
-            args = [place_path(a) or snippet(_repo(), fn["file"], a["sp"]) for a in c[0]["args"]]
+            # `let Self { params, results, name, body } = self;` — the pieces of the builder under their field names
+            from_self = {}
+            for st in walk(fn["body"]):
+                if st.get("k") == "Let" and "init" in st and st["pat"].get("k") == "Struct" and (place_path(st["init"]) or "") == "self":
+                    for fname, sub in st["pat"]["fields"]:
+                        if sub.get("k") == "Binding":
+                            from_self[sub["hid"]] = "self." + fname
+
+            def arg_text(a):
+                v = peel(a)
+                if v.get("k") == "Path" and v.get("res", {}).get("hid") in from_self:
+                    return from_self[v["res"]["hid"]]
+                return place_path(a) or snippet(_repo(), fn["file"], a["sp"])
+            args = [arg_text(a) for a in c[0]["args"]]
             want = ["self.name", "self.params", "self.results", "self.body.clone()", "tag"]
-            ok = args == want
+            ok = args == want or (from_self and args == ["self.name", "self.params", "self.results", "self.body", "tag"])
             r.ob(ok, {"fn": nm, "args": args})
             if not ok:
                 r.violate("%s | args" % fn["path"], F.loc(fn, c[0]), "add_local_func_with_tag is called with %s (expected %s)" % (args, want))
@@ -726,7 +744,18 @@ def resolver_details(F):
             return
         if node.get("k") == "If":
             c = node["cond"]
-            u = under or any(x.get("k") == "MethodCall" and x["method"] == "eq" and any(y.get("k") == "Path" and y.get("res", {}).get("name") == "block_id" for y in walk(x)) for x in walk(c))
+            def cmp_with_popped(e, depth=0):
+                for x in walk(e):
+                    if ((x.get("k") == "MethodCall" and x["method"] == "eq") or (x.get("k") == "Binary" and x.get("op") == "==")) and \
+                            any(y.get("k") == "Path" and y.get("res", {}).get("name") == "block_id" for y in walk(x)):
+                        return True
+                    # a bool local that holds the comparison: `let closes = delete_block_id == block_id; if closes {..}`
+                    if depth < 2 and x.get("k") == "Path" and x.get("res", {}).get("r") == "local":
+                        for st in walk(rs["body"]):
+                            if st.get("k") == "Let" and st["pat"].get("hid") == x["res"].get("hid") and isinstance(st.get("init"), dict) and cmp_with_popped(st["init"], depth + 1):
+                                return True
+                return False
+            u = under or cmp_with_popped(c)
             rec(node["cond"], under)
             rec(node["then"], u)
             if "else" in node:
@@ -981,10 +1010,18 @@ def save_siblings(F):
         if not lits:
             continue
         pushes = set()
+        in_and_modify = set()
+        for am in walk(fn["body"]):
+            if am.get("k") == "MethodCall" and am["method"] == "and_modify":
+                for a_ in am.get("args") or []:
+                    in_and_modify |= {id(x) for x in walk(a_)}
+        uncond_pushes = set()      # pushes on the entry itself (`map.entry(k).or_insert_with(empty).list.push(body)`): run on every call
         for c in walk(fn["body"]):
             lf_ = _push_list_field(c)
             if lf_:
                 pushes.add(lf_)
+                if id(c) not in in_and_modify and not [x for x in (conditional_ancestors(fn["body"], c) or []) if x.get("k") in ("If", "Match")]:
+                    uncond_pushes.add(lf_)
         # helpers called from and_modify closures count too (save_not_flagged…_inner)
         for c in walk(fn["body"]):
             if c.get("k") == "Call" and (c.get("callee") or "") in F.by_path:
@@ -1002,7 +1039,11 @@ def save_siblings(F):
             n += 1
             fs = dict(lit["fields"])
             populated = {fld for fld in ("flagged", "not_flagged") if fld in fs and any(x.get("k") == "Path" and x.get("res", {}).get("hid") in body_params for x in walk(fs[fld]))}
-            ok = populated == pushes and len(pushes) == 1
+            if uncond_pushes and uncond_pushes == pushes:
+                # get-or-create then push: the created entry must be empty, or the first body is filed twice
+                ok = not populated and len(pushes) == 1
+            else:
+                ok = populated == pushes and len(pushes) == 1
             r.ob(ok, {"fn": fn["name"], "pushes_to": sorted(pushes), "first_insert_populates": sorted(populated)})
             if not ok:
                 r.violate("%s | first-insert %s vs push %s" % (fn["path"], "+".join(sorted(populated)) or "none", "+".join(sorted(pushes))), F.loc(fn, lit),
